@@ -65,10 +65,14 @@ class Known:
         return {s: d for (p, s), d in self.known.items() if p == prop}
 
 
+_LIVE = []     # Results created by the worker call in progress (what they saw survives a harness exception)
+
+
 class Result:
     """Accumulates what one check run observed; merged across workers."""
 
     def __init__(self):
+        _LIVE.append(self)
         self.evaluations = 0
         self.cells = set()          # distinct non-trivial cells
         self.samples = []
@@ -119,10 +123,17 @@ class Result:
 
 def _worker_entry(args):
     fn, wseed, kwargs = args
+    del _LIVE[:]
     try:
         return fn(wseed, **kwargs)
     except Exception:
+        seen_so_far = list(_LIVE)
         r = Result()
+        for part in seen_so_far:
+            try:
+                r.merge(part)       # what the worker had observed before the harness tripped is kept
+            except Exception:
+                pass
         tb = traceback.format_exc()
         # A harness exception is inconclusive - unless the reason is that a server child went
         # away by itself: that is an observation about the system under test, not about us.
@@ -130,6 +141,9 @@ def _worker_entry(args):
             import time as _t
             from . import server as _server
             _t.sleep(0.3)
+            for s in _server.REGISTRY[-4:]:
+                if s.alive() and getattr(s, "_we_killed", None) != s.proc.pid:
+                    s.settle(3.0)
             dead = [s for s in _server.REGISTRY if s.died_by_itself()]
             for s in dead[:2]:
                 err = s.stderr_text()
